@@ -48,6 +48,42 @@ def known_findings():
     return out
 
 
+def _symbols(t, acc, seen):
+    stack = [t]
+    while stack:
+        x = stack.pop()
+        i = x.get_id()
+        if i in seen:
+            continue
+        seen.add(i)
+        if z3.is_app(x):
+            d = x.decl()
+            if d.kind() == z3.Z3_OP_UNINTERPRETED:
+                acc.add(d.name())
+            stack.extend(x.children())
+        elif z3.is_quantifier(x):
+            stack.append(x.body())
+
+
+def relevant_constraints(formulas, constraints):
+    """Finite-scope side constraints (length bounds) that talk about symbols of the obligation; the others constrain symbols
+    that do not occur in it (other paths / units) and are satisfiable on their own."""
+    syms, seen = set(), set()
+    for f in formulas:
+        _symbols(f, syms, seen)
+    out, got = [], set()
+    for c in constraints:
+        h = c.hash()
+        if h in got:
+            continue
+        cs = set()
+        _symbols(c, cs, set())
+        if cs & syms or not cs:
+            got.add(h)
+            out.append(c)
+    return out
+
+
 def probe_value(name, v, out, depth=0):
     """Terms to read out of a counter-model for value v."""
     from .core import List, Set, Map, Opt, Tup, Ref, U, INT, BOOL, STR, PY, EXC, REAL
@@ -192,7 +228,8 @@ class Check(object):
                         probes = {}
                         # quantifier-free after expansion: the logic-specific solver decides these in a fraction of the
                         # time the default strategy needs (measured: 0.7 s against > 120 s)
-                        items.append((list(o.hyps) + list(CTX.scope_constraints), o.goal, True, self.probes_for(eng, o), "QF_AUFLIA"))
+                        items.append((list(o.hyps) + relevant_constraints(list(o.hyps) + [o.goal], CTX.scope_constraints), o.goal, True,
+                                      self.probes_for(eng, o), None))
                         idx.append(o)
             res = solve.discharge(items, z3_timeout=min(self.z3_timeout, 20), cvc5=False, seed=self.seed)
             for o, r in zip(idx, res):
@@ -200,7 +237,8 @@ class Check(object):
                     refuted[o.name] = dict(obligation=o.name, clause=o.clause, kind=o.kind, scope=k, trace=o.trace,
                                            model=r.get("model", {}), solver="z3 (finite scope %d)" % k,
                                            full_scope=first_reason.get(o.name, ""))
-        undecided = [dict(obligation=n, reason=first_reason.get(n, "")) for n in sorted(open_names) if n not in refuted]
+        clause_of = dict((o.name, o.clause) for ur, o, r in rows)
+        undecided = [dict(obligation=n, reason=first_reason.get(n, ""), clause=clause_of.get(n, "")) for n in sorted(open_names) if n not in refuted]
         # an obligation refuted at full scope (sat) is a refutation even without finite-scope model
         for ur, o, r in rows:
             if o.name in open_names and r["verdict"] == "refuted" and o.name not in refuted:
@@ -213,8 +251,60 @@ class Check(object):
         return dict(getattr(o, "probes", {}))
 
     # ------------------------------------------------------------------------------------------
+    def lock_path(self):
+        return os.path.join(VERIF, "obligations.lock")
+
+    def load_lock(self):
+        try:
+            return json.load(open(self.lock_path())).get(self.pid, {})
+        except Exception:
+            return {}
+
+    def apply_lock(self, undecided, refuted, functions):
+        """An obligation that was discharged on the reference tree (obligations.lock) and can no longer be discharged after the
+        source of its function changed is reported as a violation without a failing input (the solver's reason attached).
+        With unchanged source a failing proof is flakiness (solver budget) and stays undecided."""
+        lock = self.load_lock()
+        sha = dict(("%s::%s" % (f["file"], f["qualname"]), f["sha1"]) for f in functions if f.get("sha1"))
+        still = []
+        for u in undecided:
+            unit = u["obligation"].rsplit("/", 1)[0]
+            ent = lock.get(unit)
+            clause = u["obligation"]
+            if ent and clause in ent.get("proved", []) and unit in sha and ent.get("sha1") != sha[unit]:
+                refuted.append(dict(obligation=clause, clause=u.get("clause", ""), kind="lock", scope=None, trace=[], model={},
+                                    solver="none", full_scope="discharged on the reference tree, not dischargeable after the change: %s" % u["reason"]))
+            else:
+                still.append(u)
+        return still
+
+    def write_lock(self, rows, functions):
+        try:
+            allp = json.load(open(self.lock_path()))
+        except Exception:
+            allp = {}
+        sha = dict(("%s::%s" % (f["file"], f["qualname"]), f["sha1"]) for f in functions if f.get("sha1"))
+        ent = {}
+        agg = {}
+        for gname, ur, o, r in rows:
+            a = agg.setdefault(o.name, [0, 0])
+            a[0] += 1
+            a[1] += 1 if r["verdict"] == "proved" else 0
+        for name, (n, p) in agg.items():
+            unit = name.rsplit("/", 1)[0]
+            if unit in sha:
+                e = ent.setdefault(unit, {"sha1": sha[unit], "proved": []})
+                if n == p:
+                    e["proved"].append(name)
+        allp[self.pid] = ent
+        with open(self.lock_path(), "w") as f:
+            json.dump(allp, f, indent=0, sort_keys=True)
+
     def report(self, errors, refuted, undecided, rows, functions, notes, covers_bad, solver_s, backends, assumptions):
         pid = self.pid
+        if getattr(self, "relock", False):
+            self.write_lock(rows, functions)
+        undecided = self.apply_lock(undecided, refuted, functions)
         kf = known_findings()
         my_kf = [f for f in kf["finding"] if f.get("property") == pid]
         # clause-level aggregation
@@ -372,12 +462,15 @@ def main(argv=None):
     ap.add_argument("pid")
     ap.add_argument("--tier", default=os.environ.get("VERIF_TIER", "quick"))
     ap.add_argument("--replay")
+    ap.add_argument("--relock", action="store_true", help="record the obligations discharged on this tree in obligations.lock")
     a = ap.parse_args(argv)
     seed = int(os.environ.get("VERIF_SEED", "0") or 0)
     if a.replay:
         return replay_file(a.pid, a.replay)
     try:
-        return Check(a.pid, a.tier, seed).run()
+        chk = Check(a.pid, a.tier, seed)
+        chk.relock = a.relock
+        return chk.run()
     except Exception:
         traceback.print_exc()
         print("CHECKER-ERROR property=%s crashed" % a.pid)
